@@ -729,6 +729,7 @@ func scenarios(th bool) []scenario {
 
 func TestCheck(t *testing.T) {
 	r := rep.New("C16", "exploration")
+	gate.ReportHangs(r)
 	seed := r.Seed()
 	if seed == 0 {
 		seed = 1
